@@ -31,70 +31,70 @@ def harness(tier, seed):
         pass
     hung = 0
     try:
-      for src in pool:
-          space = InstanceSpace(src)
-          dec = InstanceDecoder(space)
-          if space.n_items - space.min_bins < 1:
-              continue
-          err = Errors(space)
-          e0 = float(err.evaluate(src))
-          evals += 1
-          if e0 != 0.0:
-              viol.append(("errors/template-not-zero", {"template": src.name}, f"Errors(template)={e0}"))
-          for slack in (0, 1, 5):
-              dim = dec.get_x_dim(slack)
-              for r in range(reps):
-                  mode = r % 4
-                  if mode == 0 and slack > 0 and r % 8 == 0:
-                      # base variables 0, slack pairs with maximal cuts
-                      x = np.zeros(dim)
-                      nb_ = 2 * (space.n_items - space.min_bins)
-                      x[nb_:] = [1.0, 0.25, -0.75, np.nextafter(1.0, 0.0)][: dim - nb_] + [0.5] * max(0, dim - nb_ - 4)
-                  elif mode == 0:
-                      x = np.full(dim, specials[(r // 4) % len(specials)])
-                  elif mode == 1:
-                      x = np.array([rng.choice(specials) for _ in range(dim)])
-                  else:
-                      x = np.array([rng.uniform(-1, 1) for _ in range(dim)])
-                  info = {"template": src.name, "slack": slack, "x": x.tolist()[:60], "dim": dim}
-                  y = []
-                  try:
-                      with time_limit(60.0):       # pure Python, milliseconds for these templates on the unchanged tree
-                          dec.decode(x, y)
-                          y2 = []
-                          dec.decode(x.copy(), y2)
-                  except RealCodeTimeout:
-                      # "the decoder produces a valid instance": not returning at all is a violation of that clause
-                      viol.append(("decode/does-not-return", info, "decode did not return within 60 s (unchanged tree: milliseconds)"))
-                      hung += 1
-                      if hung >= 2:       # every further vector of this kind would cost another minute
-                          raise _Stop() from None
-                      continue
-                  except Exception as ex:
-                      viol.append(("decode/raises", info, repr(ex)))
-                      continue
-                  evals += 1
-                  distinct.add((src.name, slack, x.tobytes()))
-                  g = y[0]
-                  bin_area = space.bin_width * space.bin_height
-                  if g.name != src.name.strip() + "n" or g.bin_width != space.bin_width or g.bin_height != space.bin_height:
-                      viol.append(("decode/name-or-bin", info, f"{g.name} {g.bin_width}x{g.bin_height}"))
-                  if g.n_items != space.n_items:
-                      viol.append(("decode/item-count", info, f"n_items={g.n_items}, template {space.n_items}"))
-                  if g.total_item_area <= (space.min_bins - 1) * bin_area or g.total_item_area > space.min_bins * bin_area:
-                      viol.append(("decode/area-no-longer-needs-min-bins", info,
-                                   f"total item area {g.total_item_area}, min_bins={space.min_bins}, bin area {bin_area}"))
-                  elif g.lower_bound_bins != space.min_bins:
-                      viol.append(("decode/lower-bound-differs-from-min-bins", info,
-                                   f"lower_bound_bins={g.lower_bound_bins}, min_bins={space.min_bins}"))
-                  if not (np.array_equal(np.array(g), np.array(y2[0])) and g.n_items == y2[0].n_items):
-                      viol.append(("decode/not-repeatable", info, "second decoding differs"))
-                  e = float(err.evaluate(g))
-                  if not (0.0 <= e <= 1.0):
-                      viol.append(("errors/range", info, f"Errors={e}"))
-                  if len(samples) < 2 and slack > 0:
-                      samples.append({"template": src.name, "slack": slack, "n_items": int(g.n_items), "area": int(g.total_item_area),
-                                      "lower_bound": int(g.lower_bound_bins), "errors": e})
+        for src in pool:
+            space = InstanceSpace(src)
+            dec = InstanceDecoder(space)
+            if space.n_items - space.min_bins < 1:
+                continue
+            err = Errors(space)
+            e0 = float(err.evaluate(src))
+            evals += 1
+            if e0 != 0.0:
+                viol.append(("errors/template-not-zero", {"template": src.name}, f"Errors(template)={e0}"))
+            for slack in (0, 1, 5):
+                dim = dec.get_x_dim(slack)
+                for r in range(reps):
+                    mode = r % 4
+                    if mode == 0 and slack > 0 and r % 8 == 0:
+                        # base variables 0, slack pairs with maximal cuts
+                        x = np.zeros(dim)
+                        nb_ = 2 * (space.n_items - space.min_bins)
+                        x[nb_:] = [1.0, 0.25, -0.75, np.nextafter(1.0, 0.0)][: dim - nb_] + [0.5] * max(0, dim - nb_ - 4)
+                    elif mode == 0:
+                        x = np.full(dim, specials[(r // 4) % len(specials)])
+                    elif mode == 1:
+                        x = np.array([rng.choice(specials) for _ in range(dim)])
+                    else:
+                        x = np.array([rng.uniform(-1, 1) for _ in range(dim)])
+                    info = {"template": src.name, "slack": slack, "x": x.tolist()[:60], "dim": dim}
+                    y = []
+                    try:
+                        with time_limit(60.0):       # pure Python, milliseconds for these templates on the unchanged tree
+                            dec.decode(x, y)
+                            y2 = []
+                            dec.decode(x.copy(), y2)
+                    except RealCodeTimeout:
+                        # "the decoder produces a valid instance": not returning at all is a violation of that clause
+                        viol.append(("decode/does-not-return", info, "decode did not return within 60 s (unchanged tree: milliseconds)"))
+                        hung += 1
+                        if hung >= 2:       # every further vector of this kind would cost another minute
+                            raise _Stop() from None
+                        continue
+                    except Exception as ex:
+                        viol.append(("decode/raises", info, repr(ex)))
+                        continue
+                    evals += 1
+                    distinct.add((src.name, slack, x.tobytes()))
+                    g = y[0]
+                    bin_area = space.bin_width * space.bin_height
+                    if g.name != src.name.strip() + "n" or g.bin_width != space.bin_width or g.bin_height != space.bin_height:
+                        viol.append(("decode/name-or-bin", info, f"{g.name} {g.bin_width}x{g.bin_height}"))
+                    if g.n_items != space.n_items:
+                        viol.append(("decode/item-count", info, f"n_items={g.n_items}, template {space.n_items}"))
+                    if g.total_item_area <= (space.min_bins - 1) * bin_area or g.total_item_area > space.min_bins * bin_area:
+                        viol.append(("decode/area-no-longer-needs-min-bins", info,
+                                     f"total item area {g.total_item_area}, min_bins={space.min_bins}, bin area {bin_area}"))
+                    elif g.lower_bound_bins != space.min_bins:
+                        viol.append(("decode/lower-bound-differs-from-min-bins", info,
+                                     f"lower_bound_bins={g.lower_bound_bins}, min_bins={space.min_bins}"))
+                    if not (np.array_equal(np.array(g), np.array(y2[0])) and g.n_items == y2[0].n_items):
+                        viol.append(("decode/not-repeatable", info, "second decoding differs"))
+                    e = float(err.evaluate(g))
+                    if not (0.0 <= e <= 1.0):
+                        viol.append(("errors/range", info, f"Errors={e}"))
+                    if len(samples) < 2 and slack > 0:
+                        samples.append({"template": src.name, "slack": slack, "n_items": int(g.n_items), "area": int(g.total_item_area),
+                                        "lower_bound": int(g.lower_bound_bins), "errors": e})
     except _Stop:
         pass
     seen = set()
